@@ -56,6 +56,7 @@ def check(run):
              '(iter().cloned() / into_iter() / the view mapped element-wise)')
     for cfg in configs(run, extra_quick=('nd', 'full')):
         F = run.facts(cfg)
+        if cfg == 'base': __import__('common').pins(run, F, 'core_defaults')
         B.check_fast_paths(run, F)
         overrides(run, F)
         accessors(run, F)
